@@ -96,7 +96,15 @@ def run_es(case):
     vals = _vals(case)
     alpha = Q(case['alpha'])
     reads = case.get('reads') or [1]
-    t = ExponentialSmoothingTracker(alpha=alpha)
+    try:
+        t = ExponentialSmoothingTracker(alpha=alpha)
+    except Exception as e:
+        # the rational alpha is this harness's device; what the property covers is that every alpha in [0, 1] given as a float works
+        try:
+            ExponentialSmoothingTracker(alpha=float(alpha))
+        except Exception as e2:
+            return Result(False, key='C10:es:construct', detail=f'ExponentialSmoothingTracker(alpha={float(alpha)!r}) raised {e2!r}')
+        return Result(True, nontrivial=False, labels=['exact_alpha_unsupported'], detail=repr(e))
     if not (t.N == 0 and t.get() == 0):
         return Result(False, key='C10:es:empty', detail='fresh smoothing tracker is not 0')
     seen = []
@@ -145,6 +153,10 @@ def run_linear(case):
     n = min(len(u), len(w))
     u, w = u[:n], w[:n]
     a, b, alpha = Q(case['a']), Q(case['b']), Q(case['alpha'])
+    try:
+        ExponentialSmoothingTracker(alpha=alpha)
+    except Exception:
+        return Result(True, nontrivial=False, labels=['exact_alpha_unsupported'])
     for name, mk in (('welford', WelfordTracker), ('es', lambda: ExponentialSmoothingTracker(alpha=alpha))):
         tu, tw, tc = mk(), mk(), mk()
         for x, y in zip(u, w):
@@ -173,7 +185,13 @@ def run_numpy(case):
         xs = [conv(v) for v in raw]
     exact = [Q(float(x)) if not isinstance(x, (int, np.integer)) else Q(int(x)) for x in xs]
     alpha = case['alpha']
-    w, e = WelfordTracker(), ExponentialSmoothingTracker(alpha=alpha)
+    # alpha arrives as a Python float, a NumPy float (np.linspace sweeps, 1/np.sqrt(n)) or - at the boundaries - as the int 0 / 1
+    akind = case.get('alpha_type', 'float')
+    a_arg = np.float64(alpha) if akind == 'f64' else (int(alpha) if akind == 'int' and alpha in (0.0, 1.0) else alpha)
+    try:
+        w, e = WelfordTracker(), ExponentialSmoothingTracker(alpha=a_arg)
+    except Exception as ex:
+        return Result(False, key='C10:es:construct', detail=f'ExponentialSmoothingTracker(alpha={a_arg!r}) raised {ex!r}')
     eps = 2.0 ** -23 if case['dtype'] == 'f32' else 2.0 ** -52
     seen = []
     buf = np.zeros((), dtype=np.float64)
@@ -216,7 +234,8 @@ def strategies(ctx):
     s_n = st.fixed_dictionaries({'values': st.lists(st.one_of(st.integers(-1000, 1000).map(float), gen.finite_float(1e4)),
                                                     min_size=1, max_size=40),
                                  'dtype': st.sampled_from(sorted(_NP)),
-                                 'alpha': st.sampled_from([0.0, 1.0, 0.5, 0.1, 0.001, 0.3])})
+                                 'alpha': st.sampled_from([0.0, 1.0, 0.5, 0.1, 0.001, 0.3]),
+                                 'alpha_type': st.sampled_from(['float', 'f64', 'int'])})
     return {'welford': (s_w, run_welford), 'es': (s_e, run_es), 'linear': (s_l, run_linear), 'numpy': (s_n, run_numpy)}
 
 
